@@ -3,7 +3,7 @@
     translator reads from the CURRENT source (coq/Gen/Source.v, coq/Gen/Lists.v),
     compared with the documented values written out below and with the
     constants the model uses. *)
-From Spg.Base Require Import Prelude Utf8 Bytes.
+From Spg.Base Require Import Prelude Utf8 Bytes Multiset.
 From Spg.Model Require Import Tables Rand GenM CharSets CharGen Token WordList WordGen.
 From Spg.Proofs Require Import CountProofs GenProofs CharGenProofs ProdProofs WordProdProofs WordEntropyProofs WordFinalProofs BuiltinProofs.
 From Spg.Gen Require Source Lists.
